@@ -220,7 +220,22 @@ func TestC26(t *testing.T) {
 			}
 		}
 		if v, ok := bf["trailer"]; ok {
-			if !rec.Fail(rt, "trailer-forwarded", wit, "Trailer field reached the backend: %q", v) {
+			// A proxy that frames the forwarded body chunked itself may announce the trailers of ITS
+			// OWN message (see the h2/spdy exclusion above). That reading only holds while the
+			// announcement is truthful: the forwarded message is chunked, the names are the ones the
+			// client declared, and a trailer part the client did send is delivered. Otherwise the
+			// client's hop-by-hop field is simply passing through.
+			delivered := false
+			for _, tf := range seen[0].Msg.Trailers {
+				if strings.EqualFold(tf.Name, "X-Sum") && tf.Value == "99" {
+					delivered = true
+				}
+			}
+			truthful := front == "h1" && body != payload && hopPresent["Trailer"] && len(bf["transfer-encoding"]) == 1 &&
+				(!strings.Contains(body, "X-Sum: 99") || delivered)
+			if truthful {
+				rec.Class("trailer-announced-as-own-framing")
+			} else if !rec.Fail(rt, "trailer-forwarded", wit, "Trailer field reached the backend: %q (forwarded message chunked: %v, client sent a trailer part: %v, delivered: %v)", v, len(bf["transfer-encoding"]) == 1, strings.Contains(body, "X-Sum: 99"), delivered) {
 				return
 			}
 		}
